@@ -481,6 +481,19 @@ func checkC06(c *Check) {
 			if len(gp) != 3 {
 				return false
 			}
+			// the clamped value is a DDP index, which may be negative: a helper with unsigned parameters wraps a negative
+			// bound to a huge value and clamps it to the length instead of to 1
+			for _, pn := range g.Node.Inner {
+				if pn.Kind == "ParmVarDecl" && pn.Type != nil {
+					t := pn.Type.QualType
+					if pn.Type.Desugared != "" {
+						t = pn.Type.Desugared
+					}
+					if strings.Contains(t, "unsigned") || strings.Contains(pn.Type.QualType, "size_t") || strings.Contains(pn.Type.QualType, "uint") {
+						return false
+					}
+				}
+			}
 			lo, hi := false, false
 			g.Body.walk(func(m *CNode) bool {
 				if m.Kind == "BinaryOperator" && len(m.Inner) == 2 {
